@@ -150,10 +150,36 @@ def run_case(ctx, case_seed, kind, prefix):
                     again.set_data(k, v)
                 again.add_metadata(nm)
                 r['model'] = (fresh(nd), fresh(nm))
+                r['replaced'] = True
                 cas.save_recording(again)
                 ctx.count('resaves_with_new_content')
             for r in recs:
                 check_fetch(ctx, reader, r, kind, dict(witness, after='re-save, same reader object'))
+            # ... and the very same recording OBJECT that was saved before is completed (item assignment) and saved again,
+            # as is an object fetched from the cassette
+            for r, obj in rng.sample(live, min(len(live), 2)):
+                if 'resaved' in r:
+                    continue
+                if r.get('replaced') or rng.random() < 0.5:
+                    src = cas.get_recording(r['id'])          # an object fetched from the cassette, completed and saved again
+                    if sorted(src.get_all_keys()) != sorted(r['model'][0]) or not all(teq(src.get_data(k), v) for k, v in r['model'][0].items()) \
+                            or not teq(src.get_metadata(), r['model'][1]):
+                        continue                              # (a known finding already altered what comes back)
+                else:
+                    src = obj
+                key, val = 'note: added after the first save', ['reviewed', rng.randrange(100)]
+                try:
+                    src[key] = val
+                    cas.save_recording(src)
+                except Exception as ex:
+                    ctx.count('same_object_resave_refused_' + type(ex).__name__)
+                    continue
+                r['resaved'] = True
+                nd = dict(r['model'][0])
+                nd[key] = fresh(val)
+                r['model'] = (nd, r['model'][1])
+                ctx.count('same_object_resaves')
+                check_fetch(ctx, reader, r, kind, dict(witness, after='the same recording object completed by item assignment and saved again'))
         # unknown ids
         real = [r['id'] for r in recs]
         probes = ['nope', 'Op/deadbeef', real[0][:-1], real[0] + '0', real[0].split('/')[0], '']
